@@ -8,8 +8,24 @@ import (
 	"fmt"
 	"io"
 	"os"
+	"runtime"
 	"strconv"
+	"time"
 )
+
+// memoryWatchdog turns a runaway allocation (a harness bug, or code under test
+// looping under an injected fault) into exit 2 instead of an OOM kill.
+func memoryWatchdog() {
+	var ms runtime.MemStats
+	for {
+		time.Sleep(500 * time.Millisecond)
+		runtime.ReadMemStats(&ms)
+		if ms.HeapAlloc > 6<<30 {
+			fmt.Fprintf(os.Stderr, "INFRASTRUCTURE: heap grew to %d MiB; aborting (args %v)\n", ms.HeapAlloc>>20, os.Args)
+			os.Exit(2)
+		}
+	}
+}
 
 func usage() {
 	fmt.Fprintln(os.Stderr, "usage: vsim run <ID> <quick|thorough> [flags] | replay <file> | selftest | list")
@@ -25,6 +41,7 @@ func tierOf(s string) Tier {
 
 func main() {
 	raceLogPath = os.Getenv("VSIM_RACELOG")
+	go memoryWatchdog()
 	if len(os.Args) < 2 {
 		usage()
 	}
